@@ -57,7 +57,7 @@ func (t *tracer) middleware(mw *mwSpec) frugal.ServiceMiddleware {
 			t.add(event{mw.ID, "enter", method, withCtx(renderList(args), ctxDesc(args.Context()))})
 			res := next(svc, m, passOn(mw, method, args))
 			t.add(event{mw.ID, "exit", method, renderList(res)})
-			return frugal.Results(rwRes(mw, method, []interface{}(res)))
+			return handBack(mw, method, res)
 		}
 	}
 }
